@@ -116,7 +116,9 @@ def code_symmetry(r, F):
                       if any(any(bb == lendec[0].idx for bb, _ in backslice(d, a, "prov").calls) for a in b.term.args[1:] if a.place is not None) or
                       (b.term.callee.endswith("from_elem") and any(any(bb == lendec[0].idx for bb, _ in backslice(d, a, "prov").calls) for a in b.term.args if a.place is not None))]
             vecs = {l for l in backslice(d, rex[0].term.args[1], "prov").locals if (d.local_ty(l) or "").startswith("std::vec::Vec<u8")}
-            oks = any(d.dominates(b.idx, rex[0].idx) and (b.term.callee.endswith("from_elem") or (backslice(d, b.term.args[0], "prov").locals & vecs)) for b in sizing) and _propagated(d, rex[0])
+            errs_d = [b.idx for b in d.calls_to(r"FromResidual")] + [b.idx for b in d.blocks if not b.cleanup for s_ in b.stmts if s_.k == "assign" and s_.rv.k == "agg" and s_.rv.j.get("variant") == "Err"]
+            oks = any(d.dominates(b.idx, rex[0].idx) and (b.term.callee.endswith("from_elem") or (backslice(d, b.term.args[0], "prov").locals & vecs)) for b in sizing) and _propagated(d, rex[0]) \
+                and d.must_pass(0, [rex[0].idx] + errs_d)
         r.require(oks, d, "%s: decode buffer sized from the prefix, read error propagated" % t.rsplit("::", 1)[-1], "set_len/resize(len) on the buffer dominates read_exact",
                   "the decode buffer of %s is not sized to the decoded length before read_exact (an empty buffer reads nothing: every value decodes as empty), or the read error is dropped" % t, ln=d.lo)
         for f, c in ((e, lenenc[0]), (d, lendec[0])):
@@ -140,6 +142,15 @@ def compression_arms(r, F):
             callees = {b.term.callee for b in fn.blocks if b.idx in reach and b.term.k == "call" and b.term.callee}
             uses = {k for k, rx in fam.items() if k != "None" and any(re.search(rx, c) for c in callees)}
             want = set() if v == "None" else {v}
+            # the arm's encode / decode call (and, for zstd writing, the explicit finish) runs on every path of the arm; errors leave through `?`
+            errs = [b.idx for b in fn.calls_to(r"FromResidual")] + [b.idx for b in fn.blocks if not b.cleanup for s_ in b.stmts if s_.k == "assign" and s_.rv.k == "agg" and s_.rv.j.get("variant") == "Err"]
+            core = [b.idx for b in fn.blocks if b.idx in reach and b.term.k == "call" and b.term.callee and re.search(fam["None"], b.term.callee)]
+            uncond = bool(core) and fn.must_pass(tm[v], core + errs)
+            if v == "Zstd" and what == "encode":
+                fin = [b.idx for b in fn.blocks if b.idx in reach and b.term.k == "call" and b.term.callee and re.search(r"zstd::.*::finish$", b.term.callee)]
+                uncond = uncond and bool(fin) and fn.must_pass(tm[v], fin + errs)
+            r.require(uncond, fn, "%s arm of %s is unconditional" % (v, fn.short.rsplit("::", 1)[-1]), "the arm always %ss the value" % what,
+                      "the %s arm of %s %ss the value only on some paths (or does not finish the stream): an accepted entry is stored without its value bytes" % (v, fn.short.rsplit("::", 1)[-1], what), ln=sb.term.ln)
             r.require(uses == want and any(re.search(fam["None"], c) for c in callees), fn, "%s arm of %s" % (v, fn.short.rsplit("::", 1)[-1]),
                       "the %s arm %ss through %s" % (v, what, "the plain stream" if v == "None" else v.lower()),
                       "the %s arm of %s uses codec(s) %s: writer and reader disagree on the compression of this tag" % (v, fn.short.rsplit("::", 1)[-1], sorted(uses) or "none"), ln=sb.term.ln)
@@ -333,7 +344,7 @@ def run(chk, F):
         chk.run_rule("C08.code-symmetry-serde", "under the serde feature Code is the bincode blanket impl, used symmetrically", 2, code_symmetry, F)
     else:
         chk.run_rule("C08.code-symmetry", "every built-in Code impl encodes and decodes with the same endianness, width, order and exact-length primitives", 20, code_symmetry, F)
-    chk.run_rule("C08.compression-arms", "serialize_value and deserialize_value use the same codec family per compression tag", 6, compression_arms, F)
+    chk.run_rule("C08.compression-arms", "serialize_value and deserialize_value use the same codec family per compression tag, unconditionally in each arm", 12, compression_arms, F)
     chk.run_rule("C08.no-lost-error", "every Result in the serializer is propagated; the zstd stream is finished explicitly; lengths come from the tracking writer", 8, no_lost_error, F)
     chk.run_rule("C08.tracked-writer", "the length-tracking writer forwards each Write method like-for-like and counts accepted bytes on success only", 6, tracked_writer, F)
     chk.run_rule("C08.reject-whole", "an entry is recorded only after a successful serialization and within max_entry_size; push_slice tests sizes before copying", 5, reject_whole, F)
